@@ -481,6 +481,8 @@ ClientStep(st, kind, info, ctx) ==
     [] st = "c12:wait_cert"     /\ kind = 11 -> "c12:wait_ske"
     [] st = "c12:wait_ske"      /\ kind = 22 -> "c12:wait_ske"
     [] st = "c12:wait_ske"      /\ kind = 12 -> "c12:wait_shd"
+    [] st = "c12:wait_ske"      /\ kind = 13 -> "c12:wait_shd"                       \* RSA key exchange: no ServerKeyExchange
+    [] st = "c12:wait_ske"      /\ kind = 14 -> "c12:wait_ticket_or_finished"
     [] st = "c12:wait_shd"      /\ kind = 13 -> "c12:wait_shd"
     [] st = "c12:wait_shd"      /\ kind = 14 -> "c12:wait_ticket_or_finished"
     [] st = "c12:wait_ticket_or_finished" /\ kind = 4 -> "c12:wait_finished"
